@@ -44,6 +44,7 @@ static std::string classify_rule(const Case &c, size_t nref, std::vector<std::st
 	bool neg = false; for (auto *v : {&r.bymonthday, &r.byyearday, &r.byweekno, &r.bysetpos}) for (int x : *v) if (x < 0) neg = true;
 	for (auto &p : r.byday) if (p.first < 0) neg = true;
 	if (neg) cls.push_back("negative-ordinal");
+	for (int w : r.byweekno) if (w == 1 || w >= 52 || w == -1 || w == -2 || w <= -52) { cls.push_back("BYWEEKNO/turn-of-year"); break; }
 	civil::DT d = civil::from_ms(c.start);
 	if (d.m == 2 && d.d == 29) cls.push_back("phase/feb29"); if (d.d == 31) cls.push_back("phase/31st"); if (d.m == 12 && d.d == 31) cls.push_back("phase/dec31");
 	return sig + parts;
